@@ -22,7 +22,7 @@ RULE = ("broadband AP contents (random walk + white noise + slow oscillations, n
 ASSUMPTIONS = ["reference low-pass = the converter's own published design (2nd order Butterworth, Wn=0.2 re. AP Nyquist) applied forward-backward to "
                "the WHOLE trace with scipy.signal.sosfiltfilt", "'away from the two file edges' = 50 LF samples (600 AP samples) at either end",
                "1 LSB tolerance: bound < 1 + 1e-3 to absorb the float32 calibration round trip"]
-REQUIRED = {"lf_files_compared": 12, "reruns_same_object": 3, "window_pairs_compared": 6, "sync_columns_compared": 12, "lf_meta_checked": 12, "reference_compared": 12, "int16_wide_contents": 2, "long_cbin_cases": 1, "calibrated_rate_headers": 1, "saved_channel_subsets": 1, "four_digit_rows": 1, "limited_runs_compared": 10}
+REQUIRED = {"lf_files_left_by_stopped_runs": 3, "lf_files_compared": 12, "reruns_same_object": 3, "window_pairs_compared": 6, "sync_columns_compared": 12, "lf_meta_checked": 12, "reference_compared": 12, "int16_wide_contents": 2, "long_cbin_cases": 1, "calibrated_rate_headers": 1, "saved_channel_subsets": 1, "four_digit_rows": 1, "limited_runs_compared": 10}
 CASE_TIMEOUT = 200.0
 MAX_PROCS = 12
 
@@ -278,6 +278,51 @@ def run_case(case):
                 res.check(dev < 1 + 1e-3, "lfp:reference:limited-run", f"{label}: shank {s}: LF differs from low-pass+decimation of the trace by {dev:.3f} LSB")
         except Exception as e:
             res.exception("lfp:exception:limited-run", e, label)
+        shutil.rmtree(root, ignore_errors=True)
+    if kind == "NP2.4" and ci % 4 == 1:
+        # round 22: a verified run (post_check) that is stopped when the verification starts - a read error on the original, an interruption.  The LF
+        # stream is complete at that point: every *.lf.bin left in the shank folders is a file with metadata that describe it (2500 Hz, its channels, its rows)
+        root = d / "stopped"
+        label = f"{label0} window={wsel[0]} verification stopped at its start"
+        orig_check = neuropixel.NP2Converter.check_NP24
+
+        def _stop(self):
+            raise OSError("injected by the harness: read error when the verification starts")
+        try:
+            b, rec = np2.build(rng, root, kind=kind, ns=ns, gain=gain, sites=sites, raw=raw, fs=fs_hdr, extra_meta=xmeta)
+            conv = neuropixel.NP2Converter(b, post_check=True, compress=False, delete_original=False)
+            conv.init_params(nwindow=wsel[0])
+            neuropixel.NP2Converter.check_NP24 = _stop
+            try:
+                conv.process()
+                res.violation("lfp:stopped-run:not-stopped", f"{label}: process() returned although the verification raised")
+            except OSError:
+                res.count("runs_stopped_at_verification")
+            finally:
+                neuropixel.NP2Converter.check_NP24 = orig_check
+            try:
+                conv.sr.close()
+            except Exception:
+                pass
+            nlf = -(-ns // 12)
+            for s, c in np2.shank_columns(rec).items():
+                f = root / f"probe00{chr(97 + s)}" / (np2.NAME.replace(".ap", ".lf") + ".bin")
+                if not f.exists():
+                    continue
+                res.count("lf_files_left_by_stopped_runs")
+                if not f.with_suffix(".meta").exists():
+                    res.violation("lfp:stopped-run:lf-file-without-metadata", f"{label}: shank {s}: {f.name} ({f.stat().st_size} bytes) was left without a metadata file")
+                    continue
+                try:
+                    srl = spikeglx.Reader(f)
+                    okl = srl.fs == 2500 and srl.shape == (f.stat().st_size // (2 * len(c)), len(c)) and srl.shape[0] == nlf
+                    res.check(okl, "lfp:stopped-run:lf-file-opens-with-other-shape", f"{label}: shank {s}: {f.name} opens as {srl.shape} at {srl.fs} Hz; it holds "
+                              f"{f.stat().st_size // (2 * len(c))} rows of {len(c)} channels, expected {nlf} rows at 2500 Hz")
+                    srl.close()
+                except Exception as e:
+                    res.exception("lfp:stopped-run:lf-file-does-not-open", e, f"{label}: shank {s}")
+        except Exception as e:
+            res.exception("lfp:exception:stopped-run", e, label)
         shutil.rmtree(root, ignore_errors=True)
     ws = sorted(outs)
     for i in range(len(ws)):
